@@ -11,6 +11,17 @@ import threading as _rt
 import traceback
 
 
+STALL_CLASSES = ['fs', 'fs', 'dest-write', 'src-read', 'lock-acquire', 'lock-release', 'event-set', 'sem-acquire',
+                 'req-begin', 'req-end', 'body-read', 'cb', 'executor-submit', 'task-finished', 'monitor', 'queue-put',
+                 'queue-get', 'client', 'subscriber-on_done', 'rename', 'got-chunk', 'sink-write']
+
+
+def label_class(label):
+    if isinstance(label, tuple) and label:
+        return label[0] if label[0] != 'blocked' else None
+    return label
+
+
 class SchedAbort(BaseException):
     """Raised inside managed threads to unwind them when a run is abandoned."""
 
@@ -63,7 +74,7 @@ class MThread:
 
 
 class Scheduler:
-    def __init__(self, seed=0, mode='uniform', schedule=None, max_steps=200000, switch_prob=0.35):
+    def __init__(self, seed=0, mode='uniform', schedule=None, max_steps=200000, switch_prob=0.35, stall=None):
         self.rng = random.Random(seed)
         self.mode = mode
         self.replay = list(schedule) if schedule is not None else None
@@ -84,6 +95,22 @@ class Scheduler:
         self.seq = 0                  # global event counter for logs
         self.keep_trace = False
         self.on_point = None          # optional observer(thread_name, label), called at yield points
+        # 'stall': one operation is slow — the first thread that reaches the k-th scheduling point of a
+        # randomly chosen class (a file-system call, a lock release, an event set, a request, ...)
+        # is not scheduled for a long stretch while everything else runs (unless nothing else can).
+        self.stall_class = None
+        self.stall_nth = 0
+        self.stall_len = 0
+        self._stall_seen = 0
+        self._stalled = {}            # thread -> step until which it is held back
+        if mode == 'stall':
+            self.stall_class = self.rng.choice(STALL_CLASSES)
+            self.stall_nth = self.rng.choice([0, 0, 0, 1, 1, 2, 3, 5])
+            self.stall_len = self.rng.choice([15, 40, 100, 400])
+            if stall:
+                self.stall_class = stall.get('class', self.stall_class)
+                self.stall_nth = stall.get('nth', self.stall_nth)
+                self.stall_len = stall.get('len', self.stall_len)
         self._pct_changes = set()
         if mode == 'pct':
             self._pct_changes = {self.rng.randrange(1, 400) for _ in range(self.rng.randrange(1, 4))}
@@ -167,7 +194,11 @@ class Scheduler:
                         return t
             return cands[0]
         cur = self.current
-        if self.mode == 'uniform':
+        if self._stalled:
+            free = [t for t in cands if self._stalled.get(t, 0) <= self.steps]
+            if free:
+                cands = free
+        if self.mode in ('uniform', 'stall'):
             return self.rng.choice(cands)
         if self.mode == 'sticky':
             if cur in cands and self.rng.random() > self.switch_prob:
@@ -186,6 +217,10 @@ class Scheduler:
         self.steps += 1
         if self.on_point is not None and not (isinstance(label, tuple) and label and label[0] == 'blocked'):
             self.on_point(me.name, label)
+        if self.stall_class is not None and label_class(label) == self.stall_class:
+            if self._stall_seen == self.stall_nth:
+                self._stalled[me] = self.steps + self.stall_len
+            self._stall_seen += 1
         if self.keep_trace:
             self.trace.append((self.steps, me.name, label))
         if self.steps > self.max_steps:
